@@ -1,7 +1,12 @@
-(* C20 — executable model M of pkg/repl/history.go (History.Load/SetLimit/Add/Clear), form.go
-   (TabAppend, Empty, Equal) and linereader.go (ReadLine), over a two-file directory whose state
-   changes only by the primitive file-system steps the code issues: open (create / truncate), one
-   write per form, rename.  A crash is "stop before primitive step k"; a restart is Load. *)
+(* C20 — executable model M of pkg/repl/history.go (History.Load/SetLimit/Add/Clear), stash.go
+   (Stash.LoadExpanded/Add/Clear/clear/Nth), form.go (TabAppend, Append, Empty, Equal) and
+   linereader.go (ReadLine), over a two-file directory (the file and <file>.tmp) whose state changes
+   only by the primitive file-system steps the code issues: open (create / truncate), one write per
+   form, rename.  A crash is "stop before primitive step k"; a restart is Load / LoadExpanded.
+   Clear is the code after repo fixes C20-1 (range arithmetic) and C20-2 (rewrite through
+   <file>.tmp and rename), LoadExpanded the code after C20-4 (an empty line inside a form is kept);
+   the code before the fixes is kept as clear_range_old / rewrite_inplace / loadx_lines_old for the
+   refutations. *)
 From Coq Require Export List Bool Arith NArith ZArith Lia.
 Export ListNotations.
 
@@ -100,19 +105,55 @@ Definition add (h : hist) (f : form) : hist * list prim :=
     else
       ({| forms := fs; limit := limit h |}, [POpen PHist false; PWrite PHist (tab_append f)]).
 
-(* History.Clear(0, -1): everything *)
-Definition clear_all (h : hist) : hist * list prim :=
-  ({| forms := []; limit := limit h |}, [POpen PHist true]).
+(* Stash.clear(start, end) (shared by History and Stash; after repo fix C20-1): positions are counted
+   from the most recent form, as Stash.Nth and slip's own TestStashClear do; start < 0 counts as 0,
+   end < 0 or end >= n as n-1; nothing happens on an empty list, for start >= n or start > end.
+   The Go code moves forms[n-start:] down to index n-1-end and cuts the slice to n-(end-start)-1. *)
+Definition clear_range {A} (fs : list A) (s e : Z) : list A :=
+  let n := Z.of_nat (List.length fs) in
+  if ((0 <? n) && (s <? n))%Z then
+    let s' := if (s <? 0)%Z then 0%Z else s in
+    let e' := if ((e <? 0) || (n <=? e))%Z then (n - 1)%Z else e in
+    if (s' <=? e')%Z then firstn (Z.to_nat (n - 1 - e')) fs ++ skipn (Z.to_nat (n - s')) fs else fs
+  else fs.
+
+(* the unrepaired Stash.clear: copy(forms[:start], forms[end:]), entries above `end` set to nil (the
+   empty form), slice cut to n-(end-start)-1 *)
+Definition clear_range_old (fs : list form) (s e : Z) : list form :=
+  let n := Z.of_nat (List.length fs) in
+  if ((0 <? n) && (s <? n))%Z then
+    let s' := if (s <? 0)%Z then 0%Z else s in
+    let e' := if ((e <? 0) || (n <=? e))%Z then (n - 1)%Z else e in
+    if (s' <=? e')%Z then
+      let moved := Nat.min (Z.to_nat s') (Z.to_nat (n - e')) in
+      let a := firstn moved (skipn (Z.to_nat e') fs) ++ skipn moved fs in
+      let b := firstn (Z.to_nat (e' + 1)) a ++ repeat [] (Z.to_nat (n - e' - 1)) in
+      firstn (Z.to_nat (n - (e' - s') - 1)) b
+    else fs
+  else fs.
+
+(* rewriting the whole file from memory: through <file>.tmp and a rename (History.Add's compaction;
+   Clear after repo fix C20-2) *)
+Definition rewrite_prims (keep : list form) : list prim :=
+  POpen PTmp true :: map (fun g => PWrite PTmp (tab_append g)) keep ++ [PRename].
+(* ... and in place, as Clear did before the fix: truncate, then one write per form *)
+Definition rewrite_inplace (keep : list form) : list prim :=
+  POpen PHist true :: map (fun g => PWrite PHist (tab_append g)) keep.
+
+(* History.Clear(start, end) *)
+Definition clear (h : hist) (s e : Z) : hist * list prim :=
+  let keep := clear_range (forms h) s e in
+  ({| forms := keep; limit := limit h |}, rewrite_prims keep).
 
 Definition set_limit (h : hist) (n : Z) : hist := {| forms := forms h; limit := n |}.
 
-Inductive op := OAdd (f : form) | OClear | OLimit (n : Z) | ORestart.
+Inductive op := OAdd (f : form) | OClear (s e : Z) | OLimit (n : Z) | ORestart.
 
 Definition step (hd : hist * dir) (o : op) : (hist * dir) * list prim :=
   let '(h, d) := hd in
   match o with
   | OAdd f => let '(h', xs) := add h f in ((h', exec_prims d xs), xs)
-  | OClear => let '(h', xs) := clear_all h in ((h', exec_prims d xs), xs)
+  | OClear s e => let '(h', xs) := clear h s e in ((h', exec_prims d xs), xs)
   | OLimit n => ((set_limit h n, d), [])
   | ORestart => (({| forms := load d; limit := limit h |}, d), [])
   end.
@@ -125,3 +166,116 @@ Fixpoint run (hd : hist * dir) (ops : list op) : (hist * dir) * list prim :=
 
 (* the directory a crash before primitive step k leaves behind (k = 0 .. number of steps) *)
 Definition crash_dir (d0 : dir) (xs : list prim) (k : nat) : dir := exec_prims d0 (firstn k xs).
+
+(* ================= Stash (pkg/repl/stash.go) ================= *)
+
+(* Form.Append: every line followed by NL *)
+Definition expand (f : form) : list byte := flat_map (fun l => l ++ [NL]) f.
+
+(* what LoadExpanded needs from the Lisp reader (fullForm = slip.Read under recover): the text read so
+   far is a sequence of complete objects, or it ends inside a list or string (a slip.PartialPanic), or
+   the reader fails otherwise (the panic leaves LoadExpanded).  The reader is a parameter of the model:
+   the theorems hold for every reader; the correspondence instantiates it with rd_paren below. *)
+Inductive rres := RFull | RPartial | RErr.
+
+Section Reader.
+Variable rd : list byte -> rres.
+
+(* LoadExpanded over the lines of the file (after repo fix C20-4): an empty line is skipped unless a form
+   has begun; a line with TABs is split into the lines of a form; the lines are collected until the
+   reader accepts the text collected so far.
+   Result: the forms, and false if the reader failed (LoadExpanded panics with the forms so far). *)
+Fixpoint loadx_lines (ls : list (list byte)) (buf : list byte) (fm : form) : list form * bool :=
+  match ls with
+  | [] => ([], true)                                  (* an unfinished form at the end is dropped *)
+  | l :: ls' =>
+      if match l, fm with [], [] => true | _, _ => false end then loadx_lines ls' buf fm
+      else
+        let subs := split_on TAB l in
+        let buf' := buf ++ expand subs in
+        let fm' := fm ++ subs in
+        match rd buf' with
+        | RFull => let r := loadx_lines ls' [] [] in (fm' :: fst r, snd r)
+        | RPartial => loadx_lines ls' buf' fm'
+        | RErr => ([], false)
+        end
+  end.
+(* before the fix every empty line was skipped, also inside a form that had begun *)
+Fixpoint loadx_lines_old (ls : list (list byte)) (buf : list byte) (fm : form) : list form * bool :=
+  match ls with
+  | [] => ([], true)
+  | [] :: ls' => loadx_lines_old ls' buf fm
+  | l :: ls' =>
+      let subs := split_on TAB l in
+      let buf' := buf ++ expand subs in
+      let fm' := fm ++ subs in
+      match rd buf' with
+      | RFull => let r := loadx_lines_old ls' [] [] in (fm' :: fst r, snd r)
+      | RPartial => loadx_lines_old ls' buf' fm'
+      | RErr => ([], false)
+      end
+  end.
+Definition loadx_bytes (bs : list byte) : list form * bool := loadx_lines (file_lines bs) [] [].
+(* a stash file that cannot be opened leaves the stash empty *)
+Definition sload (d : dir) : list form * bool :=
+  match d_hist d with Some bs => loadx_bytes bs | None => ([], true) end.
+End Reader.
+
+(* Stash.Add (a stash file is in use): blank forms and a repetition of the most recent form are
+   ignored; the form is appended to the file expanded, followed by an empty line, in one write *)
+Definition sadd (fs : list form) (f : form) : list form * list prim :=
+  if form_empty f then (fs, [])
+  else if match rev fs with l :: _ => form_eqb f l | [] => false end then (fs, [])
+  else (fs ++ [f], [POpen PHist false; PWrite PHist (expand f ++ [NL])]).
+
+(* Stash.Clear(start, end): the file is rewritten, one TAB-joined line per form *)
+Definition sclear (fs : list form) (s e : Z) : list form * list prim :=
+  let keep := clear_range fs s e in (keep, rewrite_prims keep).
+
+(* use-stash / initStash: a missing stash file is created empty (os.WriteFile(name, {}): open with
+   O_CREATE|O_TRUNC, then a write of no bytes), then LoadExpanded *)
+Definition suse_prims (d : dir) : list prim :=
+  match d_hist d with None => [POpen PHist true; PWrite PHist []] | Some _ => [] end.
+
+(* Stash.Nth: numbered from the most recent form; the empty form outside the range *)
+Definition nth_form (fs : list form) (n : Z) : form :=
+  let i := (Z.of_nat (List.length fs) - n - 1)%Z in
+  if ((0 <=? i) && (i <? Z.of_nat (List.length fs)))%Z then nth (Z.to_nat i) fs [] else [].
+
+Inductive sop := SAdd (f : form) | SClear (s e : Z) | SUse | SRestart.
+
+Definition sstep (rd : list byte -> rres) (sd : list form * dir) (o : sop) : (list form * dir) * list prim :=
+  let '(fs, d) := sd in
+  match o with
+  | SAdd f => let '(fs', xs) := sadd fs f in ((fs', exec_prims d xs), xs)
+  | SClear s e => let '(fs', xs) := sclear fs s e in ((fs', exec_prims d xs), xs)
+  | SUse => let xs := suse_prims d in let d' := exec_prims d xs in ((fst (sload rd d'), d'), xs)
+  | SRestart => ((fst (sload rd d), d), [])
+  end.
+
+Fixpoint srun (rd : list byte -> rres) (sd : list form * dir) (ops : list sop) : (list form * dir) * list prim :=
+  match ops with
+  | [] => (sd, [])
+  | o :: ops' => let '(sd1, xs) := sstep rd sd o in let '(sd2, ys) := srun rd sd1 ops' in (sd2, xs ++ ys)
+  end.
+
+(* the part of slip.Read that matters for forms made of lists, atoms, "strings" (backslash escapes)
+   and ; comments: parentheses must balance; used by the correspondence and the witnesses *)
+Fixpoint rd_scan (bs : list byte) (depth : Z) (str esc com : bool) : rres :=
+  match bs with
+  | [] => if str then RPartial else if (0 <? depth)%Z then RPartial else RFull
+  | b :: bs' =>
+      if com then rd_scan bs' depth false false (negb (N.eqb b NL))
+      else if str then
+        (if esc then rd_scan bs' depth true false false
+         else if N.eqb b 92 then rd_scan bs' depth true true false
+         else if N.eqb b 34 then rd_scan bs' depth false false false
+         else rd_scan bs' depth true false false)
+      else if N.eqb b 34 then rd_scan bs' depth true false false
+      else if N.eqb b 59 then rd_scan bs' depth false false true
+      else if N.eqb b 40 then rd_scan bs' (depth + 1)%Z false false false
+      else if N.eqb b 41 then (if (depth <=? 0)%Z then RErr else rd_scan bs' (depth - 1)%Z false false false)
+      else if (128 <=? b)%N then RErr       (* slip's reader rejects non-ASCII letters outside strings and comments *)
+      else rd_scan bs' depth false false false
+  end.
+Definition rd_paren (bs : list byte) : rres := rd_scan bs 0%Z false false false.
